@@ -93,13 +93,13 @@ type fpObject struct {
 }
 
 type fpReq struct {
-	Cmd      string `json:"cmd"` // clean | smudge | list | retrieve
-	Path     string `json:"path"`
-	CanDelay bool   `json:"can_delay"`
-	Obj      int    `json:"obj"`     // index into objects for smudge of a pointer (-1: raw payload)
-	Payload  []byte `json:"-"`
+	Cmd        string `json:"cmd"` // clean | smudge | list | retrieve
+	Path       string `json:"path"`
+	CanDelay   bool   `json:"can_delay"`
+	Obj        int    `json:"obj"` // index into objects for smudge of a pointer (-1: raw payload)
+	Payload    []byte `json:"-"`
 	PayloadHex string `json:"payload"`
-	PktSize  int    `json:"pktsize"` // how the payload is packetised
+	PktSize    int    `json:"pktsize"` // how the payload is packetised
 }
 
 type fpProgram struct {
@@ -189,10 +189,14 @@ type fpSession struct {
 }
 
 func startFilterProcess(c *Ctx, dir string, delay bool) (*fpSession, string) {
+	return startFilterProcessEnv(c, dir, delay, nil)
+}
+
+func startFilterProcessEnv(c *Ctx, dir string, delay bool, extraEnv []string) (*fpSession, string) {
 	s := &fpSession{dir: dir, stderr: &bytes.Buffer{}}
 	s.cmd = exec.Command(c.Lfs, "filter-process")
 	s.cmd.Dir = dir
-	s.cmd.Env = append(os.Environ(), "GIT_TERMINAL_PROMPT=0")
+	s.cmd.Env = append(append(os.Environ(), "GIT_TERMINAL_PROMPT=0"), extraEnv...)
 	s.cmd.Stderr = s.stderr
 	s.in, _ = s.cmd.StdinPipe()
 	op, _ := s.cmd.StdoutPipe()
@@ -247,7 +251,7 @@ func (s *fpSession) exitCode(wait time.Duration) (int, bool) {
 }
 
 type fpAnswer struct {
-	Status  string   // first status (or "" for list)
+	Status  string // first status (or "" for list)
 	Content []byte
 	Final   string   // trailing status ("" = empty list)
 	Paths   []string // list_available_blobs
@@ -507,6 +511,9 @@ func c14(c *Ctx) {
 	r := NewRng(c.Seed ^ 0xC14)
 	n := c.N(300, 5000)
 	c.R.Rule = "cases = request programs (1..40 requests: clean, smudge with/without can-delay of pointers and non-pointers, then list_available_blobs rounds and retrievals as Git's client grammar dictates) x payload packetisation (1 byte .. 65516 per packet) x objects {local, on server, missing, failing} x delay capability x lfs.skipdownloaderrors, against the real `git-lfs filter-process`; non-trivial = program with >= 1 delayed smudge or >= 2 packets of payload; distinct = different encoded program"
+	if c.Replay == "" {
+		c14SkipEquivalence(c, r.Fork())
+	}
 	var progs []fpProgram
 	for _, l := range corpusLines(c, "C14") {
 		if p, ok := decodeFpProgram(l); ok {
@@ -825,3 +832,90 @@ func runFpProgram(c *Ctx, pi int, p fpProgram) (mlines, mimpl []string) {
 }
 
 func init() { campaigns["C14"] = c14 }
+
+// c14SkipEquivalence: paths that are NOT to be smudged (GIT_LFS_SKIP_SMUDGE=1, lfs.fetchexclude, a non-matching
+// lfs.fetchinclude) while their objects sit in local storage: the long-running filter — asked with and without
+// can-delay — answers with exactly what the one-shot `git lfs smudge` writes for the same pointer and path.
+func c14SkipEquivalence(c *Ctx, r *Rng) {
+	n := c.N(12, 200)
+	for i := 0; i < n; i++ {
+		dir := filepath.Join(c.Work, fmt.Sprintf("fpskip%d", i))
+		if gitInit(dir) != nil {
+			continue
+		}
+		git := func(args ...string) { exec.Command("git", append([]string{"-C", dir}, args...)...).Run() }
+		git("config", "lfs.url", "http://127.0.0.1:1/none")
+		how := Pick(r, []string{"env-skip", "env-skip", "fetchexclude", "fetchinclude-other", "none"})
+		var env []string
+		switch how {
+		case "env-skip":
+			env = []string{"GIT_LFS_SKIP_SMUDGE=1"}
+		case "fetchexclude":
+			git("config", "lfs.fetchexclude", "skipped/*")
+		case "fetchinclude-other":
+			git("config", "lfs.fetchinclude", "wanted/*")
+		}
+		type item struct {
+			path    string
+			content []byte
+			ptr     []byte
+		}
+		var items []item
+		for k := 0; k < 3; k++ {
+			b := r.Bytes(Pick(r, []int{0, 14, 700, 5000}))
+			pth := Pick(r, []string{"skipped/a.bin", "wanted/b.bin", "c.bin"})
+			if len(b) > 0 {
+				o := sha(b)
+				op := filepath.Join(dir, ".git", "lfs", "objects", o[0:2], o[2:4], o)
+				os.MkdirAll(filepath.Dir(op), 0o755)
+				os.WriteFile(op, b, 0o644)
+			}
+			ptr := canonicalPointer(sha(b), int64(len(b)))
+			if len(b) == 0 {
+				ptr = []byte("version https://git-lfs.github.com/spec/v1\noid sha256:" + sha(b) + "\nsize 0\n")
+			}
+			items = append(items, item{pth, b, ptr})
+		}
+		delayCap := r.Chance(70)
+		sess, prob := startFilterProcessEnv(c, dir, delayCap, env)
+		if prob != "" {
+			os.RemoveAll(dir)
+			continue
+		}
+		for _, it := range items {
+			enc := fmt.Sprintf("C14 skip-equivalence seed=%d idx=%d how=%s path=%s size=%d delay-capability=%v", c.Seed, i, how, it.path, len(it.content), delayCap)
+			c.R.Eval(enc, how != "none")
+			c.R.Count("skip-equivalence." + how)
+			// the one-shot filter
+			cmd := exec.Command(c.Lfs, "smudge", "--", it.path)
+			cmd.Dir = dir
+			cmd.Env = append(append(os.Environ(), "GIT_TERMINAL_PROMPT=0"), env...)
+			cmd.Stdin = bytes.NewReader(it.ptr)
+			one, oerr := cmd.Output()
+			if oerr != nil {
+				continue
+			}
+			for _, cd := range []bool{false, true} {
+				if cd && !delayCap {
+					continue
+				}
+				rq := fpReq{Cmd: "smudge", Path: it.path, CanDelay: cd, Payload: it.ptr}
+				if sess.send(rq) != nil {
+					break
+				}
+				a := sess.recv(rq)
+				if a.Status == "delayed" {
+					c.R.Add(Finding{Kind: "oracle", What: "a smudge was delayed although the object is in local storage", Case: enc, Impl: "can-delay=1"})
+					continue
+				}
+				if a.Status != "success" || !bytes.Equal(a.Content, one) {
+					c.R.Add(Finding{Kind: "oracle", What: "the long-running filter's answer to a smudge differs from what the one-shot smudge filter writes for the same pointer and path", Case: enc,
+						Impl: fmt.Sprintf("can-delay=%v: status=%s, %d bytes (sha %s); one-shot: %d bytes (sha %s)", cd, a.Status, len(a.Content), sha(a.Content)[:12], len(one), sha(one)[:12])})
+				}
+			}
+		}
+		sess.in.Close()
+		sess.exitCode(2 * time.Second)
+		os.RemoveAll(dir)
+	}
+}
